@@ -109,11 +109,13 @@ def run(ctx):
         if cf["source"] is None:
             return AC.monitor_exact_plain(cf["plain"], annots, out)
         st = AC.diff_steps(cf["plain"], cf["source"], cf["dmp"])
-        if any(o == "-" for o, _ in st) and not cf["dmp"]:
-            return None     # difflib is not guaranteed minimal; counted above as an engine-assumption miss
         return AC.monitor_forced(cf["plain"], cf["source"], cf["pos"], annots, out)
 
-    cases = AC.run_cases(ctx, cfgs, [("C10", mon)])
+    # known finding: difflib's longest-block heuristic is not a minimal diff, so with use_dmp=False an
+    # annotation can enclose the wrong characters even for insertion-only sources
+    cfgs.append(dict(plain="abab", spans=[(0, 2)], source="aZbZab", mode="unchecked", dmp=False, pos=[0, 2, 4, 5]))
+    cases = AC.run_cases(ctx, cfgs, [("C10", mon)], shape_of=lambda cf: "difflib-non-minimal-diff" if (
+        not cf["dmp"] and cf["source"] and any(o == "-" for o, _ in AC.diff_steps(cf["plain"], cf["source"], False))) else None)
     ctx.streams.append("annotate-exact")
     core.corr_run(ctx, "annotx", AC.PRE, "run_annot", "rstr_eqb", cases, shard=800,
                   ty="(list (str * bool) * str * list annot * option str * steps * mode) * result str")
